@@ -212,6 +212,22 @@ func TestVerifC20(t *testing.T) {
 					_ = va.app.stateCandidate()
 					va.app.checkRecovery()
 				}()
+				// a host leaves the registry while a loop of this process still holds its handle (it got it from Cluster.Get
+				// a moment ago) and uses it once more; then the host is registered again
+				if k%4 == 2 {
+					func() {
+						defer func() { _ = recover() }()
+						held := va.app.cluster.Get("h2")
+						d.rawDelete(dcs.JoinPath(pathHANodes, "h2"))
+						_ = va.app.cluster.UpdateHostsInfo()
+						if held != nil {
+							_, _ = held.Ping()
+							_, _, _ = held.IsReadOnly()
+						}
+						d.rawSet(dcs.JoinPath(pathHANodes, "h2"), mysql.NodeConfiguration{})
+						_ = va.app.cluster.UpdateHostsInfo()
+					}()
+				}
 				time.Sleep(time.Millisecond)
 			}
 			for k := 0; k < 20; k++ {
@@ -233,10 +249,10 @@ func TestVerifC20(t *testing.T) {
 		m.CountN("leak_goroutines_after", after)
 		m.CountN("leak_open_connections", conns)
 		if after > before+6 {
-			m.Violation("repeated iterations do not accumulate goroutines", map[string]any{"leak": "200 iterations with a flapping master, manager_switchover on"}, fmt.Sprintf("%d goroutines after warm-up, %d after 200 more iterations", before, after))
+			m.Violation("repeated iterations do not accumulate goroutines", map[string]any{"leak": "200 iterations with a flapping master and a host leaving and rejoining the registry while its handle is in use, manager_switchover on"}, fmt.Sprintf("%d goroutines after warm-up, %d after 200 more iterations", before, after))
 		}
 		if conns > 12 {
-			m.Violation("repeated iterations do not accumulate open connections", map[string]any{"leak": "200 iterations with a flapping master, manager_switchover on"}, fmt.Sprintf("%d open connections to 3 servers", conns))
+			m.Violation("repeated iterations do not accumulate open connections", map[string]any{"leak": "200 iterations with a flapping master and a host leaving and rejoining the registry while its handle is in use, manager_switchover on"}, fmt.Sprintf("%d open connections to 3 servers", conns))
 		}
 	}
 	m.Rule = "iterations of the real state handlers over coordination trees with dangling references (recorded master / switch endpoints / active members that are not registered, hosts removed between iterations, missing health records), every start state, single failing calls; the recovery checker over master-record x replication x stuck commits; 220 iterations with a flapping master for leaks; thorough: the concurrent loops of one process under the race detector"
